@@ -5,6 +5,7 @@ import (
 	"go/token"
 	"go/types"
 	"math"
+	"sort"
 
 	"golang.org/x/tools/go/ssa"
 )
@@ -645,6 +646,12 @@ func ticksFormulaRule(c *Ctx, rule string) {
 // invoked once per event, in file order, with AbsTicks = running sum of the deltas of that track (restarting at 0 for
 // the second track) and AbsMicroSeconds = T(AbsTicks).
 func iteratorSimulation(c *Ctx, rule string, do, timeAt *ssa.Function) {
+	iteratorSimulationSel(c, rule, do, timeAt, nil)
+}
+
+// iteratorSimulationSel: sel == nil: no track selection; otherwise the set of selected track numbers (the reader's
+// map[int]bool holds exactly these keys with value true).
+func iteratorSimulationSel(c *Ctx, rule string, do, timeAt *ssa.Function, sel []int64) {
 	p := c.P
 	smfT := p.namedType("smf", "SMF")
 	evT := p.namedType("smf", "Event")
@@ -701,6 +708,35 @@ func iteratorSimulation(c *Ctx, rule string, do, timeAt *ssa.Function) {
 		c.Unk(rule, "TracksReader: reference to the file", "-", "no field of type *SMF")
 		return
 	}
+	selected := map[int]bool{0: true, 1: true}
+	label := "per-event time = TimeAt(running absolute tick)"
+	if rule != "C11.4" {
+		label = "no selection: every event of every track once, tracks then events in file order"
+	}
+	if sel != nil {
+		selected = map[int]bool{}
+		okSel := false
+		if rs, ok := st.heap[rp.Obj].(*StructV); ok {
+			for i := 0; i < rs.T.NumFields(); i++ {
+				if mt, ok := rs.T.Field(i).Type().Underlying().(*types.Map); ok {
+					if b, ok := mt.Elem().Underlying().(*types.Basic); ok && b.Kind() == types.Bool {
+						var vals []Val
+						for _, k := range sel {
+							selected[int(k)] = true
+							vals = append(vals, &BoolV{Known: true, Val: true})
+						}
+						rs.Fields[i] = &MapV{Const: true, Keys: sel, Vals: vals, ElemT: mt.Elem()}
+						okSel = true
+					}
+				}
+			}
+		}
+		if !okSel {
+			c.Unk(rule, "TracksReader: track selection", "-", "no field of type map[int]bool")
+			return
+		}
+		label = fmt.Sprintf("track selection %v: exactly the events of the selected tracks, once each, in file order", sel)
+	}
 	outs := ex.Call(st, do, []Val{rp, &FuncV{Ext: "cb"}}, nil)
 	if ex.Budget || len(outs) == 0 {
 		c.Unk(rule, "iterator simulation", p.Pos(do.Pos()), "abstract interpretation did not complete")
@@ -723,11 +759,39 @@ func iteratorSimulation(c *Ctx, rule string, do, timeAt *ssa.Function) {
 				got = append(got, sv)
 			}
 		}
-		if len(got) != 4 {
-			ok, why = false, fmt.Sprintf("the callback is invoked %d times for 4 events (no selection, no filter)", len(got))
+		var wantIdx []int
+		for i := 0; i < 4; i++ {
+			if selected[i/2] {
+				wantIdx = append(wantIdx, i)
+			}
+		}
+		if len(got) != len(wantIdx) {
+			ok, why = false, fmt.Sprintf("the callback is invoked %d times, the selected tracks hold %d events", len(got), len(wantIdx))
 			continue
 		}
-		for i, sv := range got {
+		if rule == "C11.4" {
+			// the time rule does not care in which order the tracks are visited: group by reported track number
+			sort.SliceStable(got, func(a, b int) bool {
+				ta, tb := int64(-1), int64(-1)
+				if got[a] != nil {
+					if v, _ := got[a].Fields[fieldIndex(got[a].T, "TrackNo")].(*IntV); v != nil {
+						if k, isK := o.St.ConstOf(v); isK {
+							ta = k
+						}
+					}
+				}
+				if got[b] != nil {
+					if v, _ := got[b].Fields[fieldIndex(got[b].T, "TrackNo")].(*IntV); v != nil {
+						if k, isK := o.St.ConstOf(v); isK {
+							tb = k
+						}
+					}
+				}
+				return ta < tb
+			})
+		}
+		for gi, sv := range got {
+			i := wantIdx[gi]
 			if sv == nil {
 				ok, why = false, "callback argument not tracked"
 				break
@@ -740,6 +804,10 @@ func iteratorSimulation(c *Ctx, rule string, do, timeAt *ssa.Function) {
 			abs, _ := sv.Fields[fieldIndex(sv.T, "AbsTicks")].(*IntV)
 			us, _ := sv.Fields[fieldIndex(sv.T, "AbsMicroSeconds")].(*IntV)
 			tn, _ := sv.Fields[fieldIndex(sv.T, "TrackNo")].(*IntV)
+			if tn == nil || !o.St.sameInt(tn, mkConst(int64(i/2), 64, true)) {
+				ok, why = false, fmt.Sprintf("callback no. %d (expected: event %d of track %d) reports track %s", gi, i%2, i/2, valString(sv.Fields[fieldIndex(sv.T, "TrackNo")]))
+				break
+			}
 			if abs == nil || !o.St.sameInt(abs, wantAbs) {
 				ok, why = false, fmt.Sprintf("event %d of track %d gets absolute tick %s, expected the running sum of that track's deltas %s (restarting at 0 per track)", i%2, i/2, valString(sv.Fields[fieldIndex(sv.T, "AbsTicks")]), wantAbs)
 				break
@@ -747,10 +815,6 @@ func iteratorSimulation(c *Ctx, rule string, do, timeAt *ssa.Function) {
 			wantT := mkSym(ex.syms.Get("T("+o.St.TermOf(wantAbs).String()+")", 64, true))
 			if us == nil || !o.St.sameInt(us, wantT) {
 				ok, why = false, fmt.Sprintf("event %d of track %d gets time %s, expected TimeAt(its absolute tick) = %s", i%2, i/2, valString(sv.Fields[fieldIndex(sv.T, "AbsMicroSeconds")]), wantT)
-				break
-			}
-			if tn == nil || !o.St.sameInt(tn, mkConst(int64(i/2), 64, true)) {
-				ok, why = false, fmt.Sprintf("event %d reported for track %s", i, valString(sv.Fields[fieldIndex(sv.T, "TrackNo")]))
 				break
 			}
 			evs, _ := sv.Fields[fieldIndex(sv.T, "Event")].(*StructV)
@@ -764,5 +828,5 @@ func iteratorSimulation(c *Ctx, rule string, do, timeAt *ssa.Function) {
 			}
 		}
 	}
-	c.Check(ok, rule, "per-event time = TimeAt(running absolute tick)", p.Pos(do.Pos()), "2 tracks x 2 events, symbolic deltas: callback once per event in file order, AbsTicks = running sum per track, AbsMicroSeconds = TimeAt(AbsTicks)", why)
+	c.Check(ok, rule, label, p.Pos(do.Pos()), "2 tracks x 2 events, symbolic deltas: callback once per event in file order, AbsTicks = running sum per track, AbsMicroSeconds = TimeAt(AbsTicks)", why)
 }
